@@ -70,6 +70,13 @@ pub fn for_each_space(ctx: &Ctx, f: &(dyn Fn(&RefPacket, &dyn Fn() -> Value, &mu
     });
     ctx.space("16 KiB straddle: first occurrence of a shared name at every offset 16360..=16400 x 4 later-use variants", cases.len() as u64, "complete");
     ctx.sample(json!({"kind": "straddle", "first_at": 16384, "variant": 1}));
+    // long names and deep chains
+    let longs = gen::long_name_packets();
+    let lidx: Vec<usize> = (0..longs.len()).collect();
+    par_shards(ctx, &lidx, |i, t: &mut Tally| {
+        f(&longs[*i], &|| json!({"kind": "long", "index": i}), t);
+    });
+    ctx.space("long names: 240..=255-byte names sharing suffixes across question/owner/RDATA of NS, MX, SOA, SRV and PTR; chains of 20..126 owners each extending the previous by one label", longs.len() as u64, "complete");
     // big messages
     let bigs: Vec<(usize, usize)> = vec![(10, 1500), (20, 1600), (30, 2000), (31, 2050), (60, 1000), (120, 500), (300, 180)];
     par_shards(ctx, &bigs, |(n, each), t: &mut Tally| {
@@ -84,6 +91,7 @@ pub fn case_packet(case: &Value) -> Option<RefPacket> {
     Some(match case["kind"].as_str()? {
         "sharing" => gen::sharing_case(g("slots") as usize, g("index")),
         "case" => gen::case_sharing_case(g("slots") as usize, g("index")),
+        "long" => gen::long_name_packets().into_iter().nth(g("index") as usize)?,
         "straddle" => gen::straddle_packet(g("first_at") as usize, g("variant") as usize),
         "big" => gen::big_shared_packet(g("n") as usize, g("each") as usize),
         "packet" => serde_json::from_value(case["packet"].clone()).ok()?,
